@@ -131,8 +131,14 @@ def judge(steps, cfg) -> list[dict]:
 
 
 def show_wire(w) -> str:
+    def tok(t):
+        if t == "~":
+            return "None"
+        b = bytes.fromhex(t)
+        return b.decode("ascii") if all(32 < c < 127 for c in b) and b else "x:" + t
+
     def one(c):
-        return " ".join(bytes.fromhex(t).decode("latin-1") if t != "~" else "None" for t in c.split(",") if t)
+        return " ".join(tok(t) for t in c.split(",") if t)
     return "[" + " | ".join(("MULTI " + " ; ".join(one(c) for c in r[2:].split(";")) + " EXEC") if r.startswith("M:") else one(r) for r in w) + "]"
 
 
@@ -370,6 +376,7 @@ def run_decorated(drv, name: str, suppress: bool, faults: list, ncalls: int, adv
         server = rs.LeanServer(drv)
         server.down = lambda n: any(a <= n < b for a, b in faults)
         server.spin_limit = 64      # a lock wait loop (`sleep(0)` + set_lock + ping) must see time pass
+        server.max_calls = 20000
         rs.unregister()
         rs.register(server, "redis://verif:6379")
         cache = Cache()
@@ -404,6 +411,10 @@ def run_decorated(drv, name: str, suppress: bool, faults: list, ncalls: int, adv
                 r, exc = None, "own:" + type(e).__name__
             except CacheBackendInteractionError:
                 r, exc = None, "CacheBackendInteractionError"
+            except rs.LivelockGuard as e:
+                recs.append({"result": None, "exc": f"other:never returned ({e})", "calls": server.calls - c0,
+                             "failed": server.failed_calls - f0, "body_runs": len(made) - m0, "fresh": None, "made": list(made)})
+                break
             except Exception as e:  # noqa: BLE001
                 r, exc = None, f"other:{type(e).__name__}: {e}"
             for _ in range(4):
